@@ -250,6 +250,20 @@ class Check:
             raise RuntimeError("impl script %s failed (%d): %s" % (script, p.returncode, clean_out(p.stderr)[-3000:]))
         return json.loads(lines[-1])
 
+    def try_impl(self, script, payload=None, timeout=300, label=None, **kw):
+        """like impl() but a crash / timeout of the implementation-side driver is recorded as a broken
+        correspondence obligation and None is returned, so that the rest of the check still runs"""
+        name = "impl:%s%s" % (script, (":" + label) if label else "")
+        try:
+            r = self.impl(script, payload, timeout=timeout, **kw)
+            self.oblige(name, True, kind="correspondence")
+            return r
+        except subprocess.TimeoutExpired:
+            self.oblige(name, False, "the implementation-side driver did not finish within %d s" % timeout, kind="correspondence")
+        except Exception as e:  # noqa
+            self.oblige(name, False, str(e)[-1500:], kind="correspondence")
+        return None
+
     # ---------------------------------------------------------------- results
     def count(self, n=1, nontrivial_key=None, sample=None):
         self.evaluations += n
